@@ -669,6 +669,13 @@ pub fn check_property(plan: &Plan) -> i32 {
             exit = 1;
         }
     }
+    // every listed known finding of this property gets its line, observed in this batch or not (a finding is not an
+    // alarm to keep raising, but it is not to be forgotten either)
+    for k in known.findings.iter().filter(|k| k.status == "known" && k.property == plan.property) {
+        if printed_known.insert(k.id.clone()) {
+            println!("KNOWN-FINDING: property={} {} [{}; not observed in this batch]", k.property, k.what, k.id);
+        }
+    }
     // ---- evidence
     let wall = t0.elapsed().as_secs_f64();
     let evaluations = results.len() as u64;
